@@ -13,9 +13,15 @@
     * `affected_is_signer_or_caller`, `needs_grant`, `limit_exact`, `unlimited_unchanged`, `not_in_allowlist_rejected`;
     * `never_overspent`: for every sequence of approve / increase / decrease / revoke / spend on one grant slot
       the amounts spent since the last approval plus the remaining limit equal the approved amount plus the
-      increases minus the decreases.
+      increases minus the decreases;
+    * what a call leaves behind (`stakingEffects`): in the order check, Accept, message, update — which is the order the
+      regenerated fact `stakingGrantSpendOrder` reads off the four methods — a call that fails has run no message and
+      changed no grant (`failed_call_leaves_nothing`), so a contract that ignores the failure gains nothing; in the older
+      order (Accept after the message) that is false (`accept_after_message_counterexample`: the defect repaired by
+      5f6ffb7); verdict, affected account and grant agree with `stakingCall` in both orders (`effects_refine_call`).
 -/
 import HaqqModel.Model.Authz
+import HaqqModel.Generated.Facts
 
 namespace Haqq.Authz
 
@@ -328,5 +334,118 @@ theorem decrease_many_exact (gs : List Grant) (x : Nat) (ls : List Nat)
 
 example : (astepMany [some { limit := some 4, allow := [1] }, some { limit := some 4, allow := [1] }] (.decrease 3)).1
     = [some { limit := some 1, allow := [1] }, some { limit := some 1, allow := [1] }] := by decide
+
+/-! ### what a call leaves behind on the Cosmos side -/
+
+/-- the effect-level model refines the verdict-level one, in either order: same verdict, same affected account, same
+    grant afterwards on success -/
+theorem effects_refine_call (ord : Order) (c : Call) (g : Option Grant) :
+    (match stakingCall c g with
+     | .reject => (stakingEffects ord c g).ok = false
+     | .ok d g' => stakingEffects ord c g = ⟨true, some (d, c.val, c.amt), g'⟩) := by
+  unfold stakingCall stakingEffects
+  simp only []
+  cases hn : c.native
+  · -- the message server fails: rejected either way
+    simp only [Bool.not_false, if_true]
+    by_cases h1 : (!(c.caller == c.delegator) && c.origin != c.delegator) = true
+    · simp [h1]
+    · simp only [h1]
+      by_cases h2 : (c.caller == c.origin) = true
+      · simp [h2]
+      · simp only [h2]
+        cases g with
+        | none => simp
+        | some gr =>
+          simp only
+          by_cases h3 : exceeds gr.limit c.amt = true
+          · simp [h3]
+          · simp only [h3]
+            cases ord <;> cases ha : accept gr c.val c.amt <;> simp
+  · simp only [Bool.not_true]
+    by_cases h1 : (!(c.caller == c.delegator) && c.origin != c.delegator) = true
+    · simp [h1]
+    · simp only [h1]
+      by_cases h2 : (c.caller == c.origin) = true
+      · simp [h2]
+      · simp only [h2]
+        cases g with
+        | none => simp
+        | some gr =>
+          simp only
+          by_cases h3 : exceeds gr.limit c.amt = true
+          · simp [h3]
+          · simp only [h3]
+            cases ord <;> cases ha : accept gr c.val c.amt <;> simp
+
+/-- **a call that fails leaves nothing behind** when the authorization accepts before the message runs: no message
+    was executed and the stored grant is what it was — whatever the calling contract does with the failure -/
+theorem failed_call_leaves_nothing (c : Call) (g : Option Grant)
+    (h : (stakingEffects .acceptFirst c g).ok = false) :
+    (stakingEffects .acceptFirst c g).ran = none ∧ (stakingEffects .acceptFirst c g).grant = g := by
+  unfold stakingEffects at h ⊢
+  simp only [] at h ⊢
+  by_cases h1 : (!(c.caller == c.delegator) && c.origin != c.delegator) = true
+  · simp [h1]
+  · simp only [h1] at h ⊢
+    by_cases h2 : (c.caller == c.origin) = true
+    · simp only [h2] at h ⊢
+      cases hn : c.native <;> simp [hn] at h ⊢
+    · simp only [h2] at h ⊢
+      cases g with
+      | none => simp
+      | some gr =>
+        simp only at h ⊢
+        by_cases h3 : exceeds gr.limit c.amt = true
+        · simp [h3]
+        · simp only [h3] at h ⊢
+          cases ha : accept gr c.val c.amt with
+          | none => simp
+          | some g' =>
+            simp only [ha] at h ⊢
+            cases hn : c.native <;> simp [hn] at h ⊢
+
+/-- every message that runs is covered: by ownership (caller = signer) or by a grant that accepted it -/
+theorem ran_implies_authorised (c : Call) (g : Option Grant) (m : Nat × Nat × Nat)
+    (h : (stakingEffects .acceptFirst c g).ran = some m) :
+    m = (c.delegator, c.val, c.amt) ∧
+    (c.caller = c.origin ∨ ∃ gr g', g = some gr ∧ accept gr c.val c.amt = some g') := by
+  unfold stakingEffects at h
+  simp only [] at h
+  split at h
+  · simp at h
+  · split at h
+    · rename_i hco
+      split at h
+      · simp at h; simp_all
+      · simp at h
+    · split at h
+      · simp at h
+      · split at h
+        · simp at h
+        · split at h
+          · simp at h
+          · rename_i g' hacc
+            split at h
+            · simp at h; exact ⟨h.symm, Or.inr ⟨_, _, rfl, hacc⟩⟩
+            · simp at h
+
+/-- with Accept after the message the refusal comes too late: validator 2 is outside the grant, the call fails, and the
+    delegation to validator 2 has been made all the same (the defect repaired by 5f6ffb7) -/
+theorem accept_after_message_counterexample :
+    let c : Call := { origin := 1, caller := 9, delegator := 1, val := 2, amt := 50 }
+    let g : Option Grant := some { limit := some 3000, allow := [0] }
+    stakingEffects .acceptAfter c g = ⟨false, some (1, 2, 50), g⟩ ∧
+    stakingEffects .acceptFirst c g = ⟨false, none, g⟩ := by decide
+
+/-- the four methods that spend by grant run their steps in the order of `Order.acceptFirst` (regenerated fact) -/
+theorem staking_accepts_before_executing : Facts.stakingGrantSpendOrder =
+    [("Delegate", "check; accept; run; update"), ("Undelegate", "check; accept; run; update"),
+     ("Redelegate", "check; accept; run; update"), ("CancelUnbondingDelegation", "check; accept; run; update")] := by
+  decide
+
+example : (stakingEffects .acceptFirst { origin := 1, caller := 9, delegator := 1, val := 0, amt := 50 }
+    (some { limit := some 3000, allow := [0] })) = ⟨true, some (1, 0, 50), some { limit := some 2950, allow := [0] }⟩ := by
+  decide
 
 end Haqq.Authz
